@@ -104,6 +104,8 @@ impl<T> ChannelInternal<T> {
         #[cfg(kanal_verif)]
         let _verif_wl = VerifWaitList(self as *const Self);
         #[cfg(kanal_verif)]
+        crate::verif::rt::wl_teardown(self as *const Self as usize);
+        #[cfg(kanal_verif)]
         {
             if !self.wait_list.is_empty() {
                 crate::verif::rt::probe(crate::verif::rt::probe::TERMINATE_SIGNALS);
